@@ -19,7 +19,7 @@ import numpy as np
 
 from engines.procwatch import run_forked
 from vlib import cats, gen, sources
-from vlib.core import ERROR, HELD, VIOLATED, Check, Scratch, result
+from vlib.core import ERROR, HELD, VIOLATED, Check, Scratch, result, case_bits
 
 SOURCES = ["dataframe", "hdf5", "fits", "parquet"]
 
@@ -205,8 +205,8 @@ class C02(Check):
                 rgs = {"smaller": max(1, chunk // 3), "equal": chunk, "larger": chunk * 2 + 1, "one": n}[case["group"]]
                 # FITS: every third case keeps the table in extension 2 behind another table of a different length
                 decoy = None
-                if source == "fits" and case["seed"] % 3 == 0:
-                    decoy = [max(1, n // 3), n + 7, 2 * n + 1][(case["seed"] // 3) % 3]
+                if source == "fits" and case_bits(case, "hdu") % 3 == 0:
+                    decoy = [max(1, n // 3), n + 7, 2 * n + 1][case_bits(case, "decoy") % 3]
                     reader_kw["hdu"] = 2
                 src_path = sources.write_source(source, tmp / ("input" + sources.EXT[source]), cols,
                                                 row_group_size=min(max(rgs, 1), max(n, 1)), decoy_rows=decoy)
